@@ -6,6 +6,7 @@ package bodyprocessors
 import (
 	"errors"
 	"io"
+	"sort"
 	"strconv"
 	"strings"
 
@@ -31,8 +32,10 @@ func (js *jsonBodyProcessor) ProcessRequest(reader io.Reader, v plugintypes.Tran
 	col := v.ArgsPost()
 	data, err := readJSON(ss, bpo.RequestBodyRecursionLimit)
 	// The collection is populated before checking the error to still perform a best effort inspection of the payload
-	for key, value := range data {
-		col.SetIndex(key, 0, value)
+	// in sorted order: keys that differ only in case share one entry of the collection, and which one
+	// is kept must not depend on the iteration order of the map
+	for _, key := range sortedKeys(data) {
+		col.SetIndex(key, 0, data[key])
 	}
 	if err != nil {
 		return err
@@ -61,8 +64,10 @@ func (js *jsonBodyProcessor) ProcessResponse(reader io.Reader, v plugintypes.Tra
 	col := v.ResponseArgs()
 	data, err := readJSON(ss, ignoreJSONRecursionLimit)
 	// The collection is populated before checking the error to still perform a best effort inspection of the payload
-	for key, value := range data {
-		col.SetIndex(key, 0, value)
+	// in sorted order: keys that differ only in case share one entry of the collection, and which one
+	// is kept must not depend on the iteration order of the map
+	for _, key := range sortedKeys(data) {
+		col.SetIndex(key, 0, data[key])
 	}
 	if err != nil {
 		return err
@@ -76,6 +81,15 @@ func (js *jsonBodyProcessor) ProcessResponse(reader io.Reader, v plugintypes.Tra
 	}
 
 	return nil
+}
+
+func sortedKeys(m map[string]string) []string {
+	keys := make([]string, 0, len(m))
+	for k := range m {
+		keys = append(keys, k)
+	}
+	sort.Strings(keys)
+	return keys
 }
 
 func readJSON(s string, maxRecursion int) (map[string]string, error) {
